@@ -110,7 +110,7 @@ def run_histories(hists, workers=None, runner=_impl_chunk, driver='Main.lean'):
                 break
         results.append(div)
     stats = {'impl_s': round(t1 - t0, 2), 'model_s': round(t2 - t1, 2), 'lines': nlines}
-    return results, stats, impl_out
+    return results, stats, impl_out, model_out
 
 
 def first_diff_field(exp, got):
